@@ -509,7 +509,10 @@ def zero_test(g, totals):
     """Branch literal equivalent to `T == 0` for a T in totals (any spelling: ==, not !=, `not T`)."""
     n = normalise_not(g)
     if n[0] == "cmp" and n[1] == "==":
-        return (n[2] in totals and const_value(n[3]) == 0) or (n[3] in totals and const_value(n[2]) == 0)
+        if (n[2] in totals and const_value(n[3]) == 0) or (n[3] in totals and const_value(n[2]) == 0):
+            return True
+        # `a - b == 0` is kept as `a == b`
+        return any(t[0] == "op" and t[1] == "-" and {t[2], t[3]} == {n[2], n[3]} for t in totals)
     if n[0] == "not" and n[1] in totals:
         return True
     return False
@@ -518,7 +521,9 @@ def zero_test(g, totals):
 def nonzero_test(g, totals):
     n = normalise_not(g)
     if n[0] == "cmp" and n[1] == "!=":
-        return (n[2] in totals and const_value(n[3]) == 0) or (n[3] in totals and const_value(n[2]) == 0)
+        if (n[2] in totals and const_value(n[3]) == 0) or (n[3] in totals and const_value(n[2]) == 0):
+            return True
+        return any(t[0] == "op" and t[1] == "-" and {t[2], t[3]} == {n[2], n[3]} for t in totals)
     return n in totals
 
 
